@@ -5,6 +5,7 @@ package dns
 import (
 	"fmt"
 	"net"
+	"runtime/debug"
 	"sort"
 	"strings"
 	"sync"
@@ -29,12 +30,13 @@ type pathDesc struct {
 	SevenBit  string   `json:"eight_bit_names"`
 	Answered  []string `json:"answered_record_types"` // empty = all
 	SizeLimit int      `json:"answer_size_limit"`
+	Truncate  bool     `json:"oversize_answers_are_truncated_not_dropped,omitempty"`
 	StripEdns bool     `json:"strip_edns0"`
 	Domain    string   `json:"domain"`
 }
 
 func (p pathDesc) behaviour(seed uint64) *pathBehaviour {
-	b := &pathBehaviour{Case: p.Case, SevenBit: p.SevenBit, SizeLimit: p.SizeLimit, StripEdns0: p.StripEdns, rnd: seed | 1}
+	b := &pathBehaviour{Case: p.Case, SevenBit: p.SevenBit, SizeLimit: p.SizeLimit, Truncate: p.Truncate, StripEdns0: p.StripEdns, rnd: seed | 1}
 	if len(p.Answered) > 0 {
 		b.Answered = map[uint16]bool{}
 		for t, n := range typeNames {
@@ -79,7 +81,7 @@ func runHandshake(p pathDesc, seed uint64) (client *ClientDnsConnection, user *u
 		var r res
 		defer func() {
 			if x := recover(); x != nil {
-				r.p = fmt.Sprint(x)
+				r.p = fmt.Sprint(x) + " at " + panicSite()
 			}
 			done <- r
 		}()
@@ -137,6 +139,9 @@ func drawPath(rt *rapid.T) pathDesc {
 	p.SizeLimit = []int{0, 0, 512, 1232, 4096}[rapid.IntRange(0, 4).Draw(rt, "size")]
 	if p.SizeLimit != 0 && rapid.IntRange(0, 2).Draw(rt, "sizeAny") == 0 {
 		p.SizeLimit = rapid.IntRange(300, 8192).Draw(rt, "sizeLimit")
+	}
+	if p.SizeLimit != 0 {
+		p.Truncate = rapid.Bool().Draw(rt, "truncate")
 	}
 	p.StripEdns = rapid.IntRange(0, 3).Draw(rt, "stripEdns") == 0
 	sort.Strings(p.Answered)
@@ -218,7 +223,7 @@ func TestNegotiationOnlySettlesOnWhatWorks(t *testing.T) {
 			sizes = append(sizes, rapid.IntRange(1, 5000).Draw(rt, "size"))
 		}
 		sig, msg, neg := judgePath(p, seed, sizes)
-		labels := []string{"case:" + p.Case, "sevenbit:" + p.SevenBit, fmt.Sprintf("types:%d", len(p.Answered)), fmt.Sprintf("sizelimit:%v", p.SizeLimit != 0)}
+		labels := []string{"case:" + p.Case, "sevenbit:" + p.SevenBit, fmt.Sprintf("types:%d", len(p.Answered)), fmt.Sprintf("sizelimit:%v", p.SizeLimit != 0), fmt.Sprintf("truncating:%v", p.Truncate)}
 		outcome := "handshake-failed"
 		if neg != nil {
 			outcome = "negotiated"
@@ -315,3 +320,72 @@ func TestEveryRecordTypeSubset(t *testing.T) {
 }
 
 var _ = mdns.TypeA
+
+// TestSizeLimitedPaths enumerates paths that answer one record type only and limit the answer size - by dropping oversize
+// answers or, the standard way, by leaving trailing records out and setting TC - for the limits named in the property.
+func TestSizeLimitedPaths(t *testing.T) {
+	type result struct {
+		p        pathDesc
+		sig, msg string
+		neg      *negotiated
+	}
+	var paths []pathDesc
+	for _, ty := range []string{"CNAME", "MX", "SRV", "TXT", "NULL", "PRIVATE"} {
+		for _, limit := range []int{512, 1232, 4096, 5000, 8192} {
+			for _, trunc := range []bool{false, true} {
+				paths = append(paths, pathDesc{Domain: "example.org", Answered: []string{ty}, SizeLimit: limit, Truncate: trunc})
+			}
+		}
+	}
+	results := make([]result, len(paths))
+	var wg sync.WaitGroup
+	sem := make(chan struct{}, 12)
+	for i, p := range paths {
+		wg.Add(1)
+		go func(i int, p pathDesc) {
+			defer wg.Done()
+			sem <- struct{}{}
+			defer func() { <-sem }()
+			r := result{p: p}
+			r.sig, r.msg, r.neg = judgePath(p, uint64(1000+i), []int{1, 700, 3000, 9000})
+			results[i] = r
+		}(i, p)
+	}
+	wg.Wait()
+	for _, r := range results {
+		p, sig, msg, neg := r.p, r.sig, r.msg, r.neg
+		outcome := "handshake-failed"
+		if neg != nil {
+			outcome = "negotiated:" + neg.QType
+		}
+		vlib.Rec.Case(fmt.Sprintf("size-limited %+v", p), true, []string{"size-limited-path", fmt.Sprintf("truncating:%v", p.Truncate), "outcome:" + outcome}, func() interface{} {
+			return map[string]interface{}{"path": p, "negotiated": neg}
+		})
+		if sig != "" {
+			if vlib.IsKnown("C11", sig) {
+				vlib.Rec.Known(sig, map[string]interface{}{"path": p, "problem": msg})
+				continue
+			}
+			vlib.Rec.Violation(map[string]interface{}{"property": "C11", "signature": sig, "path": p, "negotiated": neg, "problem": msg})
+			t.Errorf("C11 [%s] %+v: %s", sig, p, msg)
+		}
+	}
+}
+
+// panicSite names the innermost socketace frames of the panicking goroutine's stack.
+func panicSite() string {
+	var site []string
+	for _, l := range strings.Split(string(debug.Stack()), "\n") {
+		if strings.HasPrefix(l, "\t") && strings.Contains(l, "/internal/") && !strings.Contains(l, "zz_verif") {
+			f := strings.TrimSpace(l)
+			if i := strings.Index(f, " +0x"); i > 0 {
+				f = f[:i]
+			}
+			site = append(site, f[strings.LastIndex(f, "/internal/")+1:])
+			if len(site) == 3 {
+				break
+			}
+		}
+	}
+	return strings.Join(site, " <- ")
+}
